@@ -260,6 +260,31 @@ def prove_after_closed(src_root, ex: Explorer):
         ctx.prove(f'C10.after-closed.send_message[{st}]', not sent, 'nothing is sent on a closing / closed connection')
     ex.run(send_message, 'after-closed-send')
 
+    def send_whole_frame(ctx: Ctx):
+        """send_message on an open connection: the encoded frame is handed to _send in ONE piece (one write on the transport).  Several
+        messages are sent concurrently on a connection (queued sends, replies); pieces with a suspension in between would interleave with
+        the frames of the others and the receiver loses the framing."""
+        it = mk(src_root, ctx)
+        w = NetWorld(it, ctx)
+        c = w.data_connection(state='CONNECTED')
+        c.attrs['_is_closing'] = False
+        # a large frame (a shares reply): 1 MiB of concrete bytes, so that any chunking by size is visible
+        frame = Rope.lit(b'x' * (1 << 20))
+        it.hooks[f'{CONN}:DataConnection.encode_message_data'] = lambda it2, f, a, k: frame
+        it.hooks[f'{CONN}:DataConnection._increase_read_timeout'] = lambda it2, f, a, k: None
+        sent = []
+        it.hooks[f'{CONN}:DataConnection._send'] = lambda it2, f, a, k: A.SimpleAwaitable(it2.aio, '_send', lambda it3: sent.append(a[1]))
+        try:
+            run(it, it.getattr(c, 'send_message'), Opaque('message'))
+        except (PyRaise, Unsupported) as e:
+            if isinstance(e, Unsupported):
+                raise
+            ctx.fail('C10.send_message.one-piece', repr(e.exc))
+            return
+        ctx.prove('C10.send_message.one-piece', len(sent) == 1 and sent[0] is frame,
+                  f'the frame was handed to _send in {len(sent)} pieces')
+    ex.run(send_whole_frame, 'send-whole-frame')
+
     def send_no_writer(ctx: Ctx):
         it = mk(src_root, ctx)
         w = NetWorld(it, ctx)
